@@ -138,6 +138,47 @@ def guard_blocks(ix, body, kind, protect):
     return out
 
 
+def abort_edges(ix, body):
+    """Edges (block, target) taken when an abort test fires: is_running() == false, limits_exceeded() == true, or the
+    abort value of a predicate wrapping them."""
+    sym = mir.Sym(body, ix)
+    out = set()
+    for blk in body.blocks:
+        if blk.cleanup or blk.term["k"] != "switch":
+            continue
+        sc = switch_cond(body, sym, blk.idx)
+        if sc is None:
+            continue
+        e, neg = sc
+        if not (isinstance(e, tuple) and e[0] == "call"):
+            continue
+        for kind in ("running", "limits"):
+            pol = predicate_polarity(ix, e, kind)
+            if pol is None:
+                continue
+            abort_on_true = pol != neg
+            f, tr = switch_edges(blk.term)
+            for tgt in (tr if abort_on_true else f):
+                out.add((blk.idx, tgt))
+    return out
+
+
+def reach_avoiding(body, start, removed_blocks=frozenset(), forbidden_edges=frozenset()):
+    """Blocks reachable from `start` without entering `removed_blocks` and without taking `forbidden_edges`."""
+    seen = set()
+    stack = [start]
+    while stack:
+        b = stack.pop()
+        if b in seen or b in removed_blocks:
+            continue
+        seen.add(b)
+        if b >= 0:
+            for s in body.succ(b):
+                if (b, s) not in forbidden_edges:
+                    stack.append(s)
+    return seen
+
+
 _WRAP = {}
 
 
